@@ -82,6 +82,14 @@ func checkC03(a *checkArgs, r *Result) error {
 		}
 	}
 	r.Add("corpus_streams", len(items))
+	// ring-level model of buffer / decoderDict / encoderDict vs the real types
+	nring := 4000
+	if a.tier == "thorough" {
+		nring = 40000
+	}
+	if err := ringTie(r, dp, rand.New(rand.NewSource(a.seed+77)), nring); err != nil {
+		return err
+	}
 	for i := 0; i < n; i++ {
 		s, c, desc, err := genXzStream(rng, dp, maxOps)
 		if err != nil {
